@@ -44,7 +44,7 @@ theorem ex_timeout {c : Cfg} (hg : c.Good) :
 def exEnv : Nat → Env := fun pid =>
   if pid = 1 then ⟨.child 9, some 0, fun _ => false⟩ else ⟨.nonChild, none, fun _ => false⟩
 
-def exW : WP := ⟨1, fun pid => ⟨pid, none, 0, none⟩, [], [], [], []⟩
+def exW : WP := ⟨1, fun pid => ⟨pid, none, 0, none⟩, [], [], [], [], []⟩
 
 /-- `wait_procs([p1, p2, p1], timeout=0, callback)` at t = 1, p1 a child killed by SIGKILL at
     t = 0, p2 a process that never ends: gone = [p1] with returncode −9, alive = [p2] -/
@@ -54,9 +54,9 @@ theorem ex_procs {c : Cfg} (hg : c.Good) :
       w'.cbLog = [1] ∧ w'.now = 1 := by
   simp [waitProcs, negative, dedup, whileT, lastAttempt, passN, checkGone, procWait, hg.validate, waitPid,
     waitLoop, pollNonChild, sleepStep, pastDeadline, hg.check, hg.ge, exEnv, exW, Env.ended, Env.pidExists,
-    decode, wifexited, wifsignaled, wtermsig, toSignedChar, markGone, WP.setObj, stillAlive,
+    decode, wifexited, wifsignaled, wtermsig, toSignedChar, markGone_eq, WP.setObj, stillAlive,
     Outcome.value?]
 
-theorem exW_fresh : Fresh exEnv exW := ⟨rfl, rfl, fun _ _ h => by cases h⟩
+theorem exW_fresh : Fresh exEnv exW := ⟨rfl, rfl, rfl, fun _ _ h => by cases h⟩
 
 end Psutil.C15
